@@ -8,6 +8,8 @@ import AriVerif.Proto
 import AriVerif.Spec.Ari
 import AriVerif.Init
 import AriVerif.Conc.Data
+import AriVerif.Framing
+import AriVerif.Sender
 /-!
 Line-protocol driver: one operation per input line, one answer line per operation.
 Every string travels as lower-case hex of its UTF-8 bytes (`-` = empty).
@@ -151,6 +153,29 @@ def stepLine (line : String) : String :=
           | _, _ => "bad-op"
         | none => "bad-op"
       | _, _, _, _, _ => "bad-op"
+  | "sender" :: tie :: k0 :: hz :: evs =>
+      let parseEv (t : String) : Option (Nat × SAct) :=
+        match t.splitOn ":" with
+        | [tm, "p", m] => match tm.toNat?, Hex.toStr? m with
+          | some n, some s => some (n, .put s)
+          | _, _ => none
+        | [tm, "pill"] => tm.toNat?.map fun n => (n, .pill)
+        | [tm, "stop"] => tm.toNat?.map fun n => (n, .stop)
+        | [tm, "k", k] => match tm.toNat?, k.toNat? with
+          | some n, some kk => some (n, .setK kk)
+          | _, _ => none
+        | _ => none
+      match k0.toNat?, hz.toNat?, evs.mapM parseEv with
+      | some k, some h, some es =>
+        let out := senderRun (tie == "t") k es h
+        "ok " ++ " ".intercalate (out.map fun w => toString w.time ++ ":" ++ Hex.ofStr w.line)
+      | _, _, _ => "bad-op"
+  | "frame" :: chunks =>
+      match hexToks? chunks with
+      | some cs =>
+        let (ls, b) := feedAllL [] (cs.map String.toList)
+        "ok " ++ " ".intercalate (ls.map fun l => Hex.ofStr (String.ofList l)) ++ " ; " ++ Hex.ofStr (String.ofList b)
+      | none => "bad-op"
   | ["pool", sz, cpu] =>
       match parseOptInt? sz, parseOptInt? cpu with
       | some s, some c => "ok " ++ toString (Gen.poolSize s c)
